@@ -23,13 +23,23 @@ def mkargs(a):
     """args id -> the Python object a screen is scheduled with: 0 = None, odd = the int, even = a falsy (empty) object"""
     if not a:
         return None
-    return a if a % 2 else FalsyArgs(a)
+    if a % 2:
+        return a
+    obj = FalsyArgs(a)
+    _ARGS[id(obj)] = obj          # the very object the screen is scheduled with (kept alive: its id() stays its own)
+    return obj
+
+
+_ARGS = {}
 
 
 def aid(args):
     if args is None:
         return 0
-    return args.n if isinstance(args, FalsyArgs) else args
+    if isinstance(args, FalsyArgs):
+        # the callbacks must be handed the OBJECT the screen was scheduled with, not an equal copy of it
+        return args.n if id(args) in _ARGS else 9000 + args.n
+    return args
 
 
 sys.dont_write_bytecode = True
